@@ -398,6 +398,90 @@ def run_switchover(ck, rng, quick, hsrv):
     ck.count("switchover_scripts", len(scripts))
 
 
+def run_reconfig(ck, rng, quick, hsrv):
+    """"the configured k, w, t2 values are the ones actually used": the application changes the APCI parameters between two connections
+    (live, or with the server stopped in between); the connection accepted afterwards - in a slot that served the earlier connection -
+    works with the NEW values: exactly k I-format APDUs go out unacknowledged, the S-format acknowledgement comes with the w-th received
+    I-format APDU and not before, or t2 after the first one"""
+    scripts, meta = [], {}
+    for i in range(16 if quick else 200):
+        k1, k2 = rng.choice([(12, 3), (8, 2), (3, 12), (5, 1), (2, 6), (12, 11)])
+        w1, w2 = rng.choice([(8, 3), (2, 6), (8, 8), (4, 1), (3, 5)])
+        t2a, t2b = rng.choice([(10, 2), (2, 7), (5, 5), (10, 1)])
+        how = "live" if i % 2 == 0 else "stopped"
+        lines = ["cfg k=%d w=%d t1=%d t2=%d t3=200 handlers=64 burst=0 lowq=300 highq=20" % (k1, w1, t2a + 20, t2a),
+                 "start", "connect c0 10.0.0.1:1000", "tick", "rx c0 " + apci.STARTDT_ACT.hex(), "tick"]
+        e = 0
+        for _ in range(k1 + 2):
+            e += 1
+            lines.append("enq " + c07.ev_asdu(e).hex())
+        lines += ["tick %d" % (k1 + 3), "rxs c0", "tick %d" % (k1 + 3), "rxs c0", "tick 2"]
+        for q in range(1, rng.range(0, w1 - 1) + 1):
+            lines += ["rxi c0 " + c07.peer_asdu(q).hex(), "tick"]       # leaves T2 running when the connection ends
+        lines += ["peerclose c0", "tick 2"]
+        if how == "stopped":
+            lines += ["stop"]
+        lines += ["cfg k=%d w=%d t1=%d t2=%d t3=200" % (k2, w2, t2b + 20, t2b)]
+        if how == "stopped":
+            lines += ["start"]
+        lines += ["connect c1 10.0.0.1:1001", "tick", "rx c1 " + apci.STARTDT_ACT.hex(), "tick"]
+        e1 = e
+        for _ in range(k2 + 3):
+            e += 1
+            lines.append("enq " + c07.ev_asdu(e).hex())
+        lines += ["tick %d" % (k2 + 4), "mark A", "rxs c1", "tick %d" % (k2 + 4), "rxs c1", "tick 2", "rxs c1", "tick 2", "mark B"]
+        part = rng.chance(1, 2) and w2 > 1
+        nrx = (w2 - 1) if part else w2
+        for q in range(1, nrx + 1):
+            lines += ["rxi c1 " + c07.peer_asdu(100 + q).hex(), "tick"]
+        lines += ["mark C"]
+        if part:
+            lines += ["adv %d" % (t2b * 1000 - 1), "tick", "mark D", "adv 2", "tick 2", "mark E"]
+        sid = "rc%d" % i
+        scripts.append((sid, lines)); meta[sid] = (k1, k2, w1, w2, t2a, t2b, how, part, nrx)
+    rs = runner.run_batch(hsrv, scripts, timeout=3600)
+    for sid, lines in scripts:
+        k1, k2, w1, w2, t2a, t2b, how, part, nrx = meta[sid]
+        ck.evaluations += 1
+        o = rs.get(sid, dict(out=[], crash=None))
+        if o["crash"]:
+            ck.fail("input", "crash:%s:%s" % (o["crash"]["kind"], o["crash"]["site"]), "server aborted: %s at %s" % (o["crash"]["kind"], o["crash"]["site"]), {"script": lines, "role": "server", "stderr": o["crash"]["text"]})
+            continue
+        # the harness echoes `mark X` lines: cut the c1 traffic at the marks
+        seg, cur = {}, "0"
+        for l in o["out"]:
+            if l.startswith("mark "):
+                cur = l.split()[1]
+            elif l.startswith("tx c1 "):
+                for f in apci.split_stream(bytes.fromhex(l.split()[2]))[0]:
+                    seg.setdefault(cur, []).append(apci.parse_apdu(f))
+        if any(l.split()[:3] == ["ev", "c1", "CLOSED"] for l in o["out"]):
+            ck.fail("input", "oracle:reconfig:server", "server reconfigured %s from (k=%d,w=%d,t2=%d) to (k=%d,w=%d,t2=%d): the connection accepted afterwards was closed by the server" % (how, k1, w1, t2a, k2, w2, t2b),
+                    {"script": lines, "role": "server", "observed": [l[:80] for l in o["out"] if l.startswith(("tx c1", "ev "))][-8:]})
+            continue
+        bad = None
+        n_i = sum(1 for a in seg.get("0", []) if a["kind"] == "I")
+        if n_i != k2:
+            bad = "%d I-format APDUs were sent without acknowledgement on the new connection (%d event ASDUs waiting), the configured k is %d" % (n_i, k2 + 3, k2)
+        s_c = [a for a in seg.get("B", []) if a["kind"] == "S"]
+        if not bad and part:
+            if s_c:
+                bad = "an S-format APDU was sent after %d received I-format APDUs, the configured w is %d" % (nrx, w2)
+            elif [a for a in seg.get("C", []) if a["kind"] == "S"]:
+                bad = "the S-format APDU came %d ms after the first unacknowledged I-format APDU, the configured t2 is %d s" % (t2b * 1000 - 1, t2b)
+            elif not [a for a in seg.get("D", []) if a["kind"] == "S"]:
+                bad = "no S-format APDU %d ms after the first unacknowledged I-format APDU, the configured t2 is %d s" % (t2b * 1000 + 1, t2b)
+        elif not bad:
+            if len(s_c) != 1 or s_c[0]["nr"] != w2:
+                bad = "after %d received I-format APDUs the server sent %s, the configured w is %d (one S-format APDU with N(R)=%d expected)" % (
+                    nrx, ["S(%d)" % a["nr"] for a in s_c] or "no S-format APDU", w2, w2)
+        if bad:
+            ck.fail("input", "oracle:reconfig:server", "server reconfigured %s from (k=%d,w=%d,t2=%d) to (k=%d,w=%d,t2=%d) between two connections: %s" % (how, k1, w1, t2a, k2, w2, t2b, bad),
+                    {"script": lines, "role": "server", "observed": [l[:80] for l in o["out"] if l.startswith(("tx c1", "ev ", "mark"))][-10:]})
+        ck.nontriv(("reconfig", k1, k2, w1, w2, t2a, t2b, how, part))
+    ck.count("reconfig_scripts", len(scripts))
+
+
 def run_testfr(ck, rng, quick, hsrv):
     """server: TESTFR act after t3 of silence; closed when it stays unanswered for t1 and not before -- for t3 above, equal to
     and below t1 (the server sends no further TESTFR act while one is pending)"""
@@ -571,6 +655,7 @@ def run(ck):
                 ck.sample({"role": role, "params": meta[sid], "script": lines[:14]})
     run_switchover(ck, rng, quick, hsrv)
     run_testfr(ck, rng, quick, hsrv)
+    run_reconfig(ck, rng, quick, hsrv)
     ck.count("server_scripts", len(ss))
     ck.count("client_scripts", len(cs))
     ck.extra["disagreements"] = ndiff
